@@ -104,7 +104,7 @@ Proof.
   - exists (mkSt i p rest c). split; [constructor|].
     destruct rest as [|x t]; [exact H|].
     destruct ((x =? 10) && (multiline || match t with [] => true | _ => false end)); [exact H|discriminate].
-  - exists (mkSt i p rest c). split; [constructor|]. destruct (xorb neg _); [exact H|discriminate].
+  - exists (mkSt i p rest c). split; [constructor|]. destruct (_ && xorb neg _); [exact H|discriminate].
 Qed.
 
 (* ---- takeN / dropN over an append ---- *)
